@@ -13,6 +13,7 @@ import PySpikeVerif.Proofs.PermProfiles
 import PySpikeVerif.Proofs.RangeLaws
 import PySpikeVerif.Proofs.PyxCounters
 import PySpikeVerif.Proofs.Totality
+import PySpikeVerif.Proofs.AverageProfile
 
 namespace PySpike.C04
 open PySpike PySpike.C01
@@ -342,3 +343,28 @@ theorem degenerate_list_is_valid :
     B5_ValidList 0 6 [⟨[], 0, 6⟩, ⟨[0], 0, 6⟩, ⟨[0], 0, 6⟩, ⟨[1, 3, 6], 0, 6⟩] := D4_exL_valid.1
 
 end PySpike.C18
+
+namespace PySpike.C09
+open PySpike
+
+/-- `average_profile` of `n ≥ 2` well-formed profiles on a common support is well-formed on that
+    support and is, at every time, the arithmetic mean of the profiles; fewer than two profiles
+    are rejected (the code's assert) -/
+theorem average_profile_pwc (a b : Q) (fs : List Pwc) (h2 : 2 ≤ fs.length)
+    (hl : ∀ f ∈ fs, B5_PwcOn a b f) :
+    ∃ g, averagePwc fs = some g ∧ B5_PwcOn a b g ∧
+      ∀ t, a ≤ t → t < b →
+        g.evalR t = some (qsum (fs.map fun f => (f.evalR t).getD 0) / (fs.length : Q)) :=
+  averagePwc_is_mean a b fs h2 hl
+
+theorem average_profile_pwl (a b : Q) (fs : List Pwl) (h2 : 2 ≤ fs.length)
+    (hl : ∀ f ∈ fs, B5_PwlOn a b f) :
+    ∃ g, averagePwl fs = some g ∧ g.WF ∧
+      ∀ t, a ≤ t → t < b →
+        g.evalR t = some (qsum (fs.map fun f => (f.evalR t).getD 0) / (fs.length : Q)) :=
+  averagePwl_is_mean a b fs h2 hl
+
+theorem average_profile_rejects (fs : List Pwc) (h : fs.length < 2) : averagePwc fs = none :=
+  averagePwc_rejects fs h
+
+end PySpike.C09
